@@ -25,7 +25,7 @@ REQUIRED_MONITORS = ["equals_channel_sum", "zero_magnetisation_is_nonmagnetic"]
 REQUIRED_BUCKETS = {"quick": ["up_frac:0", "up_frac:0.5", "up_frac:1", "up_frac:outside", "up_frac:random", "axis:up_theta90",
                               "axis:tilted", "magnetic_slds:1", "magnetic_slds:all", "vector_sld", "dispersity", "oriented",
                               "lane:asan", "nonmagnetic_sld_with_nonzero_angles", "mesh>100",
-                              "angles:outside-nominal-range", "entry:call_Fq", "entry:sasview", "cutoff>0:small-channel-weight"]}
+                              "angles:outside-nominal-range", "entry:call_Fq", "entry:sasview", "cutoff>0:small-channel-weight", "magnetisation-along-polarisation-axis"]}
 REQUIRED_BUCKETS["thorough"] = REQUIRED_BUCKETS["quick"]
 
 
@@ -134,6 +134,13 @@ def run_case(case, rec):
     else:
         ut, up = float(rng.uniform(5, 175)), float(rng.uniform(5, 175))
         rec.bucket("axis:tilted")
+    if k % 6 == 5 or (k % 6 == 2 and len(mags) > 1):
+        # a saturated sample: every magnetisation exactly along (or exactly against) the polarisation axis, with both
+        # spin-flip and non-spin-flip weight
+        for j_, s_ in enumerate(mags):
+            M[s_] = (abs(M[s_][0])*(-1.0 if j_ % 2 else 1.0), ut, up)
+        ui, uf = float(rng.uniform(0.2, 0.8)), float(rng.uniform(0.2, 0.8))
+        rec.bucket("magnetisation-along-polarisation-axis")
     cutoff = 0.0
     if k % 4 == 1 and any(kk.endswith("_pd_n") for kk in pars):
         # a weight cutoff above zero together with a small but non-zero weight of some spin channels: the cutoff acts
